@@ -3219,6 +3219,17 @@ class SEVM:
                         if not reachable_targets:
                             raise InvalidJumpDestError(dst)
 
+                        # dst may also be none of the valid jump destinations: that side fails.
+                        # re-execute this JUMP on a separate branch with a concrete destination that
+                        # is certainly invalid, so that the error stays confined to that branch
+                        invalid_cond = And(
+                            *[dst.as_z3() != target for target in ex.pgm.valid_jumpdests()]
+                        )
+                        if ex.check(invalid_cond) != unsat:
+                            err_ex = self.create_branch(ex, invalid_cond, ex.pc)
+                            err_ex.st.push(BV(len(ex.pgm)))
+                            stack.push(err_ex)
+
                         for target in reachable_targets:
                             cond = dst.as_z3() == target
                             new_ex = self.create_branch(ex, cond, target)
